@@ -150,6 +150,9 @@ def const_arg(ctx, rule, body, call, idx, expect, what, tol=0.0):
     return ok
 
 
+RESTRICTING = ('take', 'skip', 'filter', 'step_by', 'take_while', 'skip_while', 'filter_map', 'nth', 'map_while', 'rev_take')
+
+
 def loops_over(ctx, body, adt, field):
     """`for` loops whose iterator derives from field `adt.field` (and from no other loop's item)"""
     out = []
@@ -168,4 +171,83 @@ def loop_must(ctx, rule, body, lo, call_pred, what):
     ctx.counters['cfg_paths'] += 1
     ok = bool(via) and T.must_pass(body, some_bb, {header}, via)
     ctx.check(ok, rule, 'T-LOOPMUST', body.name, 'a path through the loop body skips `%s`' % what if via else 'loop body never reaches `%s`' % what, body.site(c.bb))
+    # the iterator itself must not drop elements
+    si = ctx.S.slice_operand(body, c.args[0])
+    restr = sorted({x.item for x in si.call_objs if x.item in RESTRICTING and 'Iterator' in (x.trait or '')})
+    ctx.check(not restr, rule + '/all-items', 'T-LOOPMUST', body.name, 'the loop iterator is restricted by %s' % restr, body.site(c.bb))
+    return ok
+
+
+def self_writes(ctx, body, root=1, _depth=0, _seen=None):
+    """fields of the root parameter's ADT that may be written (assigned or mutably borrowed), following
+    calls that receive the whole `&mut self`.  '*' = unknown (whole value escapes to a non-local callee)."""
+    _seen = _seen if _seen is not None else set()
+    if body.name in _seen or _depth > 6: return set()
+    _seen.add(body.name)
+    out = set()
+    aliases = T.copies_of(body, root)            # plain copies / reborrows of the root
+    # reborrows `&mut *_1`
+    changed = True
+    while changed:
+        changed = False
+        for bi, st in body.stmts():
+            rv = st['rv']
+            if rv['k'] == 'ref' and rv.get('mut') and rv['pl']['l'] in aliases and all(p == '*' for p in rv['pl']['p']) and not st['dst']['p']:
+                if st['dst']['l'] not in aliases:
+                    aliases |= T.copies_of(body, st['dst']['l']); changed = True
+    def first_field(pl):
+        for p in pl['p']:
+            if isinstance(p, dict) and 'f' in p: return p['f']
+        return None
+    for bi, st in body.stmts():
+        d = st['dst']; rv = st['rv']
+        if d['l'] in aliases and d['p']:
+            f = first_field(d)
+            if f: out.add(f)
+            elif any(p == '*' for p in d['p']): out.add('*')
+        if rv['k'] == 'ref' and rv.get('mut') and rv['pl']['l'] in aliases:
+            f = first_field(rv['pl'])
+            if f: out.add(f)
+        if rv['k'] == 'rawptr' and rv['pl']['l'] in aliases:
+            f = first_field(rv['pl']); out.add(f or '*')
+    for c in body.calls:
+        for i, a in enumerate(c.args):
+            if a['k'] in ('copy', 'move') and a['pl']['l'] in aliases and all(p == '*' for p in a['pl']['p']):
+                l = a['pl']['l']
+                if '&mut' not in body.locals[l] and not (l == root and not body.locals[l].startswith('&')):
+                    continue
+                if not body.locals[l].startswith('&mut') and l != root: continue
+                if body.locals[l].startswith('&') and not body.locals[l].startswith('&mut'): continue
+                cb = ctx.F.bodies.get(c.path)
+                if cb is None:
+                    if body.locals[l].startswith('&mut'): out.add('*:' + c.item)
+                else:
+                    out |= self_writes(ctx, cb, i + 1, _depth + 1, _seen)
+    return out
+
+
+def writes_only(ctx, rule, body, allowed, what='self'):
+    w = self_writes(ctx, body)
+    extra = sorted(x for x in w if x not in allowed)
+    ctx.check(not extra, rule, 'T-ATOMIC', body.name, 'writes to %s outside %s: %s' % (what, sorted(allowed), extra), body.site(), writes=sorted(w))
+    return w
+
+
+def must_pass_or_none(ctx, rule, body, call, adt, field, what):
+    """every path entry -> Ok-exit passes `call` or the None arm of a test on Option field adt.field"""
+    via = {call.bb}
+    for bi in body.live:
+        t = body.blocks[bi]['term']
+        if t['k'] == 'switch' and t['d']['k'] != 'const':
+            dl = t['d']['pl']['l']
+            for k, b2, st in body.defs_of(dl):
+                if k == 'stmt' and st['rv']['k'] == 'discr':
+                    s = ctx.S.backslice(body, [st['rv']['pl']['l']])
+                    fs = set(fields_of_place(st['rv']['pl'])) | s.fields
+                    if any(f == field and (a == adt or a.endswith('::' + adt)) for a, f in fs):
+                        m = {v: tg for v, tg in t['ts']}
+                        via.add(m.get(0, t['else']))
+    ctx.counters['cfg_paths'] += 1
+    ok = T.must_pass(body, 0, body.strict_ok_exits(), via)
+    ctx.check(ok, rule, 'T-MUSTCALL', body.name, 'an Ok-exit is reachable without %s' % what, body.site(call.bb))
     return ok
